@@ -69,6 +69,11 @@ def check (st : St) (toks : List String) (obs : Option String) : St × Option St
     ({ st with c := { delay := int! d, maxDelay := int! md, delayFactor := f32 (int! fn) (int! fd), delayMin := int! mn, delayMax := int! mx,
                       jitter := int! j, jitterFactor := f32 (int! jn) (int! jd), maxDuration := int! mdur, delayFn := int! dfn },
                jfNum := int! jn, jfDen := int! jd, fnUntil := 0 }, none)
+  | ["cfg", d, md, fn, fd, mn, mx, j, jn, jd, mdur, dfn, untl, _hist] =>
+    -- `_hist`: other delay kinds were configured on the builder first; the last setter decides (no effect on the expectation)
+    ({ st with c := { delay := int! d, maxDelay := int! md, delayFactor := f32 (int! fn) (int! fd), delayMin := int! mn, delayMax := int! mx,
+                      jitter := int! j, jitterFactor := f32 (int! jn) (int! jd), maxDuration := int! mdur, delayFn := int! dfn },
+               jfNum := int! jn, jfDen := int! jd, fnUntil := nat! untl }, none)
   | ["cfg", d, md, fn, fd, mn, mx, j, jn, jd, mdur, dfn, untl] =>
     ({ st with c := { delay := int! d, maxDelay := int! md, delayFactor := f32 (int! fn) (int! fd), delayMin := int! mn, delayMax := int! mx,
                       jitter := int! j, jitterFactor := f32 (int! jn) (int! jd), maxDuration := int! mdur, delayFn := int! dfn },
